@@ -384,6 +384,7 @@ def run(ctx) -> list[Inst]:
     insts += _file_layer(ctx)
     insts += _stale_locals(ctx)
     insts += _positional_keys(ctx)
+    insts += _default_omission(ctx)
     insts += _discriminator_keys(ctx)
     insts += _signature_args(ctx)
     insts += _templates(ctx)
@@ -656,6 +657,39 @@ def _positional_keys(ctx) -> list[Inst]:
                 file=rel, line=bad[0].lineno, props=props))
         else:
             insts.append(Inst(RULE, fname, construct, 'ok', file=rel, line=f.node.lineno, props=props))
+    return insts
+
+
+def _default_omission(ctx) -> list[Inst]:
+    """(ii'') a defense value is left out of the file only when it EQUALS the default the reader will assume: the test
+    that decides the omission is an exact `==` / `!=` with `<value>.default()`.  A tolerance (isclose, round, abs(a-b)
+    < eps) drops values that differ from the default and brings them back as the default."""
+    prog = ctx.prog
+    if not prog.has_func('Model.get_asset_defenses'):
+        return []
+    f = prog.func('Model.get_asset_defenses')
+    rel = f.module.relpath
+    insts = []
+    tests = [n for n in own_nodes(f.node) if isinstance(n, (ast.If, ast.IfExp)) and 'default' in stmt_text(n.test)]
+    construct = "(ii') a defense is omitted only when it equals its default exactly"
+    if not tests:
+        return [Inst(RULE, f.short, construct, 'unproven', msg='no comparison with the default found', file=rel,
+                     line=f.node.lineno, props=('C07',))]
+    for n in tests:
+        approx = [c for c in ast.walk(n.test) if isinstance(c, ast.Call) and (
+            (isinstance(c.func, ast.Attribute) and c.func.attr in ('isclose', 'allclose')) or
+            (isinstance(c.func, ast.Name) and c.func.id in ('round', 'abs', 'isclose')))]
+        ineq = [c for c in ast.walk(n.test) if isinstance(c, ast.Compare) and 'default' in stmt_text(c)
+                and any(isinstance(o, (ast.Lt, ast.LtE, ast.Gt, ast.GtE)) for o in c.ops)]
+        if approx or ineq:
+            insts.append(Inst(
+                RULE, f.short, construct, 'violation',
+                msg=(f"'{stmt_text(n.test, 90)}' treats values NEAR the default as the default: such a defense value is "
+                     f"not written, and the loaded model has the default instead of the value that was set"),
+                file=rel, line=n.lineno, props=('C07',)))
+        else:
+            insts.append(Inst(RULE, f.short, construct, 'ok', msg=stmt_text(n.test, 60), file=rel, line=n.lineno,
+                              props=('C07',)))
     return insts
 
 
@@ -995,6 +1029,12 @@ def _file_layer(ctx) -> list[Inst]:
                     break
                 verdict = 'unproven'
                 msg = f'{lib} is given {k.arg}={stmt_text(v, 40)}'
+            for k in c.keywords:
+                if k.arg == 'allow_nan' and isinstance(k.value, ast.Constant) and k.value.value is False:
+                    verdict = 'violation'
+                    msg = (f"{lib}(..., allow_nan=False) raises ValueError for inf / nan inside the content (free-form "
+                           f"extras may hold them, e.g. an unreachable cost): saving fails and leaves a truncated file, "
+                           f"while the same content round-trips through the other format")
             if verdict == 'ok' and odd:
                 verdict, msg = 'unproven', f'{lib} is given unrecognised options {odd}'
             if verdict == 'ok' and lib == 'yaml.load':
